@@ -146,6 +146,25 @@ func checkC09(p *Prog, r *Report) {
 							return
 						}
 					}
+					/* Written to after parsing, through the pointer the flag
+					package handed out (a loop "expanding" every path
+					flag): what is served need not be the tree named. */
+					if u, isLd := resolveCell(arg).(*ssa.UnOp); isLd && token.MUL == u.Op {
+						if fc, isCall := resolveCell(u.X).(*ssa.Call); isCall && strings.HasPrefix(calleeName(fc.Common()), "flag.") {
+							for _, ref := range *fc.Referrers() {
+								st, isSt := ref.(*ssa.Store)
+								if isSt && st.Addr != ssa.Value(fc) {
+									if _, isCell := resolveFree(st.Addr).(*ssa.Alloc); isCell {
+										continue /* a captured variable's cell */
+									}
+								}
+								if isSt {
+									rRoot.Bad(c, posOf(st), "the -serve-files-from value is written to again after the flags are parsed (its pointer is stored or stored through): the directory served need not be the one the operator named")
+									return
+								}
+							}
+						}
+					}
 					rRoot.OK(c, posOf(call), "not rewritten by a path function")
 				})
 			}
